@@ -510,6 +510,8 @@ def addr_to_pubkeyhash(address, as_hex=False, encoding=None):
         try:
             pkh = addr_base58_to_pubkeyhash(address, as_hex)
         except EncodingError:
+            if encoding == 'base58':
+                raise
             pkh = None
         if pkh is not None:
             return pkh
